@@ -35,6 +35,7 @@ RULE = (
     "Oracle: outcome is 'raises' or 'catalog equal to the input' (multiset), never a hang, never other data; pre-existing paths byte-identical "
     "unless overwrite=True onto a catalog cache; after a failed creation Catalog(path) raises unless it is the untouched pre-existing cache. "
     "Non-trivial: fault not in the first chunk and >1 worker; distinct = case digest."
+    ' Extensions: centres are handed over as coordinates or as another catalog; pairwise distinct by construction.'
 )
 ASSUMPTIONS = [
     "a hang in real-parallel mode is declared only after 20 s and two samples 3 s apart without any CPU progress in the process tree",
